@@ -308,7 +308,23 @@ func (e *SpecEnv) equal(a, b T, x ast.Expr) T {
 
 func (e *SpecEnv) selector(x *ast.SelectorExpr) T {
 	// pkg-qualified?  handled via g("...") instead.
-	base := e.tr(x.X)
+	var base T
+	if id, ok := x.X.(*ast.Ident); ok {
+		if _, bound := e.bound[id.Name]; !bound {
+			if pv, ok := e.vars[id.Name].(*PtrVal); ok && !(pv.Kind == PHeap && len(pv.Path) == 0) {
+				// pointer to a local / interior object: select inside the pointee
+				lv, ok := e.cur.LoadPtr(pv).(T)
+				if !ok {
+					sfail("%s does not point to a term", id.Name)
+				}
+				lv.Go = pv.ElemType()
+				base = lv
+			}
+		}
+	}
+	if base.IsZero() {
+		base = e.tr(x.X)
+	}
 	gt := base.Go
 	if gt == nil {
 		sfail("no Go type for %s; cannot select .%s", exprString(x.X), x.Sel.Name)
@@ -384,6 +400,9 @@ func (e *SpecEnv) call(x *ast.CallExpr) T {
 				return e.ex.Unm(gt, b)
 			case "zero":
 				return e.ex.ZeroOf(gt)
+			case "norm": // norm[T](x): what decoding the encoding of x yields (nil Int/Dec fields become 0)
+				v := e.tr(x.Args[0])
+				return WithGo(e.ex.normForCodec(v, gt, 0), gt)
 			case "deref": // deref[T](p): heap read of a raw reference
 				p := e.wantInt(x.Args[0])
 				_, h := e.cur.Heap(gt)
@@ -481,8 +500,13 @@ func (e *SpecEnv) call(x *ast.CallExpr) T {
 		c := e.tr(x.Args[0])
 		sid := e.storeArg(x.Args[1])
 		k := e.tr(x.Args[2])
-		return Select(e.cur.StateOf(c), App("SK", "mkSK", sid, k), SBytes)
+		return stGet(e.cur.StateOf(c), sid, k)
 	case "store":
+		// store("name"): id ; store(ctx, "name"): the whole module store (Array Bytes Bytes)
+		if len(x.Args) == 2 {
+			c := e.tr(x.Args[0])
+			return Select(e.cur.StateOf(c), e.storeArg(x.Args[1]), SStore)
+		}
 		return e.storeArg(x.Args[0])
 	case "g":
 		// g("x/assets/types.KeyPrefixReStakerAssetInfos")
@@ -519,6 +543,35 @@ func (e *SpecEnv) call(x *ast.CallExpr) T {
 			parts = append(parts, e.tr(a))
 		}
 		return e.ex.JoinTerm(parts, sep)
+	case "accstr", "valstr", "consstr":
+		// bech32 rendering of an sdk.AccAddress / ValAddress / ConsAddress (as computed by their String methods)
+		tn := map[string]string{"accstr": "AccAddress", "valstr": "ValAddress", "consstr": "ConsAddress"}[name]
+		gt := e.ex.LookupType("github.com/cosmos/cosmos-sdk/types." + tn)
+		if gt == nil {
+			sfail("%s: sdk.%s not found", name, tn)
+		}
+		b := e.tr(x.Args[0])
+		return App(SBytes, "addr_string", IntLit(int64(e.ex.TypeID(gt))), b)
+	case "bytelit":
+		// bytelit(n): the one-byte string with value n (n a constant)
+		t := e.wantInt(x.Args[0])
+		n, err := strconv.Atoi(t.S)
+		if err != nil || n < 0 || n > 255 {
+			sfail("bytelit: constant 0..255 expected, got %s", t.S)
+		}
+		return e.ex.Lits.Term(string([]byte{byte(n)}))
+	case "put":
+		// put(state, "store", key, val): functional update of one key of a State term
+		stt := e.tr(x.Args[0])
+		if stt.Sort != SState {
+			sfail("put: first argument must be a State, got %s", stt.Sort)
+		}
+		sid := e.storeArg(x.Args[1])
+		k, v := e.tr(x.Args[2]), e.tr(x.Args[3])
+		if v.Sort == "Nil" {
+			v = bnilT
+		}
+		return WithGo(stSet(stt, sid, k, v), nil)
 	case "traceN":
 		return e.cur.traceN
 	case "traceAt":
@@ -546,7 +599,7 @@ func (e *SpecEnv) call(x *ast.CallExpr) T {
 		}
 		return c.tr(d.Body)
 	}
-	if sig, ok := e.ex.Prelude.Sigs[name]; ok {
+	if sig, ok := e.ex.Prelude.Sigs[name]; ok && name != "put" {
 		if len(sig.Args) != len(x.Args) {
 			sfail("%s: want %d args, got %d", name, len(sig.Args), len(x.Args))
 		}
